@@ -41,6 +41,11 @@ ENTITY e;
   li : OPTIONAL LIST OF INTEGER;
   lr : OPTIONAL LIST OF REAL;
   ln : OPTIONAL LIST OF NUMBER;
+  ls : OPTIONAL LIST OF STRING;
+  lb : OPTIONAL LIST OF BINARY;
+  lbo : OPTIONAL LIST OF BOOLEAN;
+  llo : OPTIONAL LIST OF LOGICAL;
+  len : OPTIONAL LIST OF en;
 END_ENTITY;
 END_SCHEMA;
 """
@@ -473,7 +478,7 @@ def work_write(unit):
             elif sev < NOERR or null or not values_equal(kind, back, want_back) or pos != len(wr):
                 syms.append(('write-read mismatch', 'value %s written as %r reads back severity %d is_null %s value %r position %d' % (v, wr, sev, null, back, pos)))
             # the same token as the only element of a LIST OF <kind>: the element writer must render it identically
-            if not syms and kind in ('INTEGER', 'REAL', 'NUMBER') and len(f) > 9 and f[8] != '-':
+            if not syms and kind != 'REFERENCE' and len(f) > 9 and f[8] != '-':
                 aggw, aggsev = _unhex(f[8]), int(f[9])
                 res['seen'].add((kind, 'write as aggregate element', vc, len(aggw)))
                 if aggsev < NOERR or aggw != '(' + wr + ')':
